@@ -94,6 +94,39 @@ def check_navigation(root):
             continue
         if sorted(map(id, seen)) != sorted(map(id, alln)):
             bad.append(f'{W.__name__} visited {len(seen)} nodes {[type(c).__name__ for c in seen]}, the tree has {len(alln)}')
+    # one walker OBJECT used again: after a complete walk, and after a walk that one of its methods aborted with an exception half way -
+    # "the tree walkers reach every node" holds for every walk, not only for the first walk of a fresh object
+    for W in (DepthFirstWalker, BreadthFirstWalker, PostOrderDepthFirstWalker):
+        seen, state = [], {'abort_at': 0, 'n': 0}
+
+        class Boom(Exception):
+            pass
+
+        class R(W):
+            def walk_Node(self, node, *a, **k):
+                state['n'] += 1
+                if state['abort_at'] and state['n'] == state['abort_at']:
+                    raise Boom()
+                seen.append(node)
+                return node
+        w = R()
+        for label, abort_at in (('a first complete walk', 0), ('a walk aborted by an exception at its 2nd node', 2), ('a walk aborted at its 1st node', 1)):
+            state.update(abort_at=abort_at, n=0)
+            try:
+                w.walk(root)
+            except Boom:
+                pass
+            except Exception as e:  # noqa: BLE001
+                bad.append(f'{W.__name__} ({label}) raised {type(e).__name__}: {e}')
+            seen.clear()
+            state.update(abort_at=0, n=0)
+            try:
+                w.walk(root)
+            except Exception as e:  # noqa: BLE001
+                bad.append(f'{W.__name__}: the same walker object used again after {label} raised {type(e).__name__}: {e}')
+                continue
+            if sorted(map(id, seen)) != sorted(map(id, alln)):
+                bad.append(f'{W.__name__}: the same walker object used again after {label} visited {len(seen)} nodes, the tree has {len(alln)}')
     # dispatch: a walker method named after a node's class (or the nearest base class that has one) receives the node - also in a
     # walker SUBCLASS defined after its parent class has already walked such nodes
     names = sorted({type(n).__name__ for n in alln})
